@@ -533,6 +533,23 @@ def rule_rot(ctx) -> None:
                 step = it.args[2]
                 neg = isinstance(step, ast.UnaryOp) and isinstance(step.op, ast.USub) and isinstance(step.operand, ast.Constant) and step.operand.value == 1
                 start_ok = src(it.args[0]).replace(" ", "") == f"{backups_p}-1"
+                # ... or from just below the first free slot (an interrupted rotation leaves a gap; generations above it stay)
+                a0 = it.args[0]
+                if not start_ok and isinstance(a0, ast.BinOp) and isinstance(a0.op, ast.Sub) and isinstance(a0.left, ast.Name) and isinstance(a0.right, ast.Constant) and a0.right.value == 1:
+                    hn = (cfg.nodes_of(lp) or [None])[0]
+                    ds = [d for d in rd.reaching(a0.left.id, hn) if d.kind != "mutate"] if hn is not None else []
+                    def slot_def(d):
+                        if d.value is None:
+                            return False
+                        if isinstance(d.value, ast.Name) and d.value.id == backups_p:
+                            return True  # every slot is taken
+                        if isinstance(d.value, ast.Name):  # top = k inside `for k in range(1, backups + 1): if not exists(path.k)`
+                            for st, part in enclosing(ctx.prog, fn, d.node.ast):
+                                if isinstance(st, ast.For) and isinstance(st.target, ast.Name) and st.target.id == d.value.id and isinstance(st.iter, ast.Call) and dotted(st.iter.func) == "range" \
+                                        and len(st.iter.args) == 2 and isinstance(st.iter.args[0], ast.Constant) and st.iter.args[0].value == 1 and src(st.iter.args[1]).replace(" ", "") == f"{backups_p}+1":
+                                    return any((not pol) and "exists(" in t for t, pol in cfg.facts(d.node))
+                        return isinstance(d.value, ast.Constant) and d.value.value is None and any(x.kind == "assign" and x is not d for x in ds)
+                    start_ok = bool(ds) and all(slot_def(d) for d in ds)
                 stop_ok = isinstance(it.args[1], ast.Constant) and it.args[1].value == 0
                 okd = neg and start_ok and stop_ok
             elif isinstance(it, ast.Call) and dotted(it.func) == "reversed" and len(it.args) == 1:
@@ -542,6 +559,24 @@ def rule_rot(ctx) -> None:
         ctx.check(okd, "C16.ROT", f"{fn.qual}/cascade-descending", fn.loc(c),
                   "cascade runs k = backups-1 … 1 strictly descending (oldest first): no generation is overwritten before it has moved",
                   f"{why}: not strictly descending from backups-1 to 1, a younger generation overwrites an older one that has not moved yet")
+    # the oldest generation is dropped only when there is no free slot: after an interrupted rotation (gap below it) an
+    # unconditional delete would lose a generation that is not the oldest
+    for r in removes:
+        facts = cfg.facts(r)
+        guarded = any((pol and t.endswith(" is None")) or ((not pol) and t.endswith(" is not None")) for t, pol in facts)
+        in_for_else = any(isinstance(st, ast.For) and part == "orelse" for st, part in enclosing(ctx.prog, fn, r.ast))
+        ctx.check(guarded or in_for_else, "C16.ROT", f"{fn.qual}/delete-only-when-full", fn.loc(r.ast),
+                  "path.<backups> is deleted only when no backup slot is free",
+                  "path.<backups> is deleted unconditionally: after a rotation that was interrupted between cascade steps (a gap below it) the re-run removes a generation that is not the oldest "
+                  "although a slot is free")
+    # the moved files are real generations, not disposable temp files: a failed move must leave the source in place
+    for n, c, kind, a_src, a_dst in ops:
+        if kind == "rename" and call_tail(c) == "atomic_replace":
+            kw = kwarg(c, "cleanup_tmp")
+            ctx.check(isinstance(kw, ast.Constant) and kw.value is False, "C16.ROT", ctx.okey(f"{fn.qual}/failed-move-keeps-source"), fn.loc(c),
+                      "atomic_replace(..., cleanup_tmp=False): a failed move leaves the generation where it is",
+                      f"`{src(c)[:60]}` hands a live generation to atomic_replace as its disposable temp argument: when the rename fails for good the source is unlinked and its records are in "
+                      "neither file")
     # ordering: delete-oldest, then cascade, then live file
     casc_nodes = [n for n, _, _ in cascades]
     for r in removes:
